@@ -9,9 +9,9 @@ Randomness is an explicit argument (the values the Go code draws from its
 receiver scalars in round 2, the AES key, the offset R and the input labels in
 round 3.  The elliptic curve is an abstract commutative group `G` with affine
 coordinates; a coordinate pair that is not a curve point (`IsOnCurve` false)
-is `ofPt = none`.  `crypto/elliptic` PANICS when such a pair reaches
-`ScalarMult`/`Add`; the model returns `Res.panic` exactly where the Go code
-calls them without a preceding `ensureOnCurve`.
+is `ofPt = none`.  `crypto/elliptic` panics when such a pair reaches
+`ScalarMult`/`Add`; every call site is preceded by `ensureOnCurve` (an error),
+so no round returns `Res.panic` (`C18_rounds_no_crash`).
 -/
 import MpcVerif.Model.Sha2pc
 
@@ -72,33 +72,25 @@ def round2 (P : Params G) (msg : Round1) (b : Bytes) (scalars : List Nat) : Res 
              { sid := msg.sid, curveName := P.curve.name, ax := msg.ax, ay := msg.ay,
                scalars := (List.range nBits).map (fun i => scalars.getD i 0), bits := bits })
 
-/-- `ot.EncryptCOCiphertexts`.  `error`: `ensureOnCurve` fails for `A` or for a
-choice point, or the counts differ.  `panic`: `AaInv` is not a curve point
-(`curve.Add` is called on it unchecked, after the first choice point passed
-its check). -/
+/-- `ot.EncryptCOCiphertexts`: `ensureOnCurve` for `A`, for `AaInv` and for
+every choice point, equal counts; every failure is an error. -/
 def encryptCO (K : Crypto G) (st : GarblerSession) (choices : List Point) (wires : Nat → Label × Label) (n : Nat) :
     Res (List (Label × Label)) :=
   match K.ofPt ⟨st.ax, st.ay⟩ with
   | none => .error
   | some A =>
-    if choices.length ≠ n then .error
-    else
-      match choices with
-      | [] => .ok []
-      | p0 :: _ =>
-        match K.ofPt p0 with
+    match K.ofPt ⟨st.ainvx, st.ainvy⟩ with
+    | none => .error
+    | some AaInv =>
+      if choices.length ≠ n then .error
+      else
+        match choices.mapM K.ofPt with
         | none => .error
-        | some _ =>
-          match K.ofPt ⟨st.ainvx, st.ainvy⟩ with
-          | none => .panic
-          | some AaInv =>
-            match choices.mapM K.ofPt with
-            | none => .error
-            | some pts =>
-              match Co.encrypt K.Γ (fun _ => true) K.kdf { a := st.scalar, A := A, AaInv := AaInv } n
-                  (fun i => pts.getD i A) wires with
-              | some cts => .ok cts
-              | none => .error
+        | some pts =>
+          match Co.encrypt K.Γ (fun _ => true) K.kdf { a := st.scalar, A := A, AaInv := AaInv } n
+              (fun i => pts.getD i A) wires with
+          | some cts => .ok cts
+          | none => .error
 
 /-- `GarblerRound3` for the garbler's input bytes `a`, the sampled AES key,
 offset `r0` (before `SetS(true)`) and input zero-labels `inl`. -/
@@ -121,16 +113,14 @@ def round3 (P : Params G) (st : GarblerSession) (a : Bytes) (req : Round2) (key 
       | .error => .error
       | .panic => .panic
 
-/-- `ot.DecryptCOCiphertexts`.  `panic`: the stored `A` is not a curve point
-(`curve.ScalarMult` is called on it unchecked). -/
+/-- `ot.DecryptCOCiphertexts`: `ensureOnCurve` for the stored `A` first. -/
 def decryptCO (K : Crypto G) (st : EvaluatorSession) (cts : List (Label × Label)) : Res (List Label) :=
-  let count := st.bits.length
-  if st.scalars.length ≠ count ∨ cts.length ≠ count then .error
-  else if count = 0 then .ok []
-  else
-    match K.ofPt ⟨st.ax, st.ay⟩ with
-    | none => .panic
-    | some A => .ok (Co.decrypt K.Γ K.kdf A count (fun i => st.scalars.getD i 0) (fun i => st.bits.getD i false) cts)
+  match K.ofPt ⟨st.ax, st.ay⟩ with
+  | none => .error
+  | some A =>
+    let count := st.bits.length
+    if st.scalars.length ≠ count ∨ cts.length ≠ count then .error
+    else .ok (Co.decrypt K.Γ K.kdf A count (fun i => st.scalars.getD i 0) (fun i => st.bits.getD i false) cts)
 
 /-- The evaluator's wire array: `copy(wires[:256], GarblerInputs)`,
 `copy(wires[256:], labels)`, the rest zero. -/
